@@ -54,11 +54,15 @@ func workerSearch(results []interface{}, ctrChanged chan<- struct{}, f func(int)
 		if res == nil {
 			continue
 		}
+		verifYield("ws.beforeCtr", 0)
 		i := atomic.AddInt64(ctr, -1)
+		verifYield("ws.afterCtr", int(i))
 		if i >= 0 {
 			results[i] = res
 		}
+		verifYield("ws.beforeSend", int(i))
 		ctrChanged <- struct{}{}
+		verifYield("ws.afterSend", int(i))
 	}
 }
 
@@ -69,8 +73,11 @@ func worker(commands <-chan command) {
 			workerSearch(c.results, c.ctrChanged, c.f, c.ctr)
 		} else {
 			c.results[c.i] = c.f(c.i)
+			verifYield("w.beforeCtr", c.i)
 			atomic.AddInt64(c.ctr, -1)
+			verifYield("w.afterCtr", c.i)
 			c.ctrChanged <- struct{}{}
+			verifYield("w.afterSend", c.i)
 		}
 	}
 }
@@ -152,8 +159,11 @@ func (p *Pool) Search(count int, f func() interface{}) []interface{} {
 		}
 	}
 	for atomic.LoadInt64(&ctr) > 0 {
+		verifYield("c.beforeRecv", 0)
 		<-ctrChanged
+		verifYield("c.afterRecv", 0)
 	}
+	verifYield("c.return", 0)
 
 	return results
 }
@@ -190,8 +200,11 @@ func (p *Pool) Parallelize(count int, f func(int) interface{}) []interface{} {
 		}
 	}
 	for atomic.LoadInt64(&ctr) > 0 {
+		verifYield("c.beforeRecv", 0)
 		<-ctrChanged
+		verifYield("c.afterRecv", 0)
 	}
+	verifYield("c.return", 0)
 
 	return results
 }
